@@ -30,5 +30,7 @@ C11_ConcurrentShutdown == Fact("C11") =>
    IF Facts[l].what = "accepted-vs-shutdown" THEN (Facts[l].b = 0 \/ Facts[l].a < Facts[l].b) ELSE Facts[l].a = 0
 \* a job is built from the definitions installed by the last ReplaceDefinitions before its own critical section (a = the job's, b = installed)
 C16_ConcurrentReload == Fact("C16") => Facts[l].a = Facts[l].b
+\* a completed job of the pipeline that goes on after a failure, one of whose tasks failed, is not reported as succeeded (a = 1)
+C08_ConcurrentVerdict == Fact("C08") => Facts[l].a = 0
 Alias == [kind |-> kind, line |-> l]
 =============================================================================
